@@ -7,6 +7,8 @@ import (
 	"fmt"
 	"hash/fnv"
 	"io"
+	"math"
+	"os"
 	"runtime"
 	"sort"
 	"strconv"
@@ -29,10 +31,27 @@ type Config struct {
 	Variants bool  `json:"variants"` // high priority / forwarded / async submissions are events
 	Stale    bool  `json:"stale"`    // stale and duplicate answers are events
 	AddrX    bool  `json:"addr_x"`   // CloseAddr is an event
+	// Part "" = part A (all environment events, see main.go). Part "B" = abandoned requests answered late,
+	// followed by calls on a healthy store: the only deviation events are a caller giving up (C<i>, T<i>) and
+	// the batch answer AA; submissions through the asynchronous API (S<i>a: no deadline at all) are default
+	// events like plain ones; the server never drops a stream, no write fails, nothing is closed.
+	Part string `json:"part,omitempty"`
 }
 
 func (c Config) String() string {
-	return fmt.Sprintf("callers=%d,F<=%d,conns=%d,limit=%d,variants=%v,stale=%v,addrx=%v", c.Callers, c.MaxF, c.Conns, c.Limit, c.Variants, c.Stale, c.AddrX)
+	s := fmt.Sprintf("callers=%d,F<=%d,conns=%d,limit=%d,variants=%v,stale=%v,addrx=%v", c.Callers, c.MaxF, c.Conns, c.Limit, c.Variants, c.Stale, c.AddrX)
+	if c.Part != "" {
+		s = "part=" + c.Part + "," + s
+	}
+	return s
+}
+
+// cost of an event in this configuration (see eventCost; in part B asynchronous submissions are default events).
+func (c Config) cost(e string) int {
+	if c.Part == "B" && len(e) > 2 && e[0] == 'S' && e[len(e)-1] == 'a' {
+		return 0
+	}
+	return eventCost(e)
 }
 
 func applyConfig(c Config) {
@@ -175,6 +194,28 @@ func (w *world) enabled(o *obs, budget int) []string {
 	}
 	if next >= 0 {
 		out = append(out, fmt.Sprintf("S%d", next))
+	}
+	if w.cfg.Part == "B" {
+		if next >= 0 {
+			out = append(out, fmt.Sprintf("S%da", next))
+		}
+		if budget <= 0 {
+			return out
+		}
+		for _, s := range o.Streams {
+			if s.Alive && len(pendingBy[s.Idx]) >= 2 {
+				out = append(out, "AA:"+s.Kind)
+			}
+		}
+		for i := range o.Callers {
+			if o.inflight(i) {
+				out = append(out, fmt.Sprintf("C%d", i))
+				if w.callers[i].variant != vAsync {
+					out = append(out, fmt.Sprintf("T%d", i))
+				}
+			}
+		}
+		return out
 	}
 	if budget <= 0 || (next < 0 && !anyInflight && len(out) == 0) {
 		return out
@@ -371,6 +412,10 @@ func (w *world) perform(o *obs, e string) (expect, error) {
 		for k := range w.droppedKinds {
 			if k[1:] == kind[1:] && k[0] != kind[0] {
 				ex.shape = "/after-a-stream-of-the-other-kind-failed-on-the-connection"
+				// Known, documented and not claimed (findings/C18-candidate-fixes.diff, item 1): the recv loop that
+				// loses the epoch CAS re-creates its stream without failing its own pending entries; they stay in
+				// the in-flight table. The healthy-store oracle does not judge the rest of such an execution.
+				w.knownLeak = true
 			}
 		}
 		if w.droppedKinds == nil {
@@ -593,11 +638,207 @@ func (w *world) check(before, after *obs, e string, ex expect) []viol {
 	return vs
 }
 
+// ---------- oracle for a healthy store (late answers to abandoned requests, calls that follow) ----------
+//
+// Rule (from the property text "every call returns exactly once - with the response to its own request, or
+// with an error"): a call may stay without result only while the environment withholds something from it.
+// The environment of this harness withholds nothing ("healthy store") when: the client is not closed, no
+// armed send failure is pending, every stream the client needs is alive (the server re-accepts a stream at
+// once; connections never break), and the server answers every request it has received (the explorer's
+// default events do that, in every order). In that situation
+//
+//	(a) request-never-sent:healthy-stream - when the send loop is woken by a submission it must hand to the
+//	    stream every queued call of high priority and, of the others, at least min(free slots, queued), where
+//	    free slots = MaxConcurrencyRequestLimit - (requests written to a live stream and not yet answered); with
+//	    the default limit: everything. The count of requests outstanding is taken from the SERVER's table (what
+//	    it received and has not answered on a live stream), never from the client's own counters; a request whose
+//	    caller gave up (time-out, cancel) holds its slot exactly until the server's answer arrives.
+//	(b) call-never-returns:healthy-stream - at the end of an execution (all callers submitted, every request
+//	    answered) the epilogue gives every remaining call every chance: it wakes the send loop with a probe call
+//	    of high priority (which by-passes the limit), answers everything the server receives, and repeats while
+//	    that makes progress; the time-outs of the remaining calls are never fired (unbounded virtual time). A
+//	    call that is still without result afterwards is a violation.
+//	(c) slot-accounting:healthy-stream (white box, early and local) - at every quiescence the client's in-flight
+//	    table and `sent` counter must equal the number of requests outstanding by the server's table. With a
+//	    finite limit every unit of difference is a lost (or invented) slot: violation; with the default limit it
+//	    is only reported as an observation (nothing a caller can see depends on it).
+//
+// NOT judged: the unchanged client re-examines requests queued behind the limit only when a new submission
+// wakes the send loop (an answer that frees a slot does not wake it). A queued call that nobody wakes stays
+// queued until its own time-out; that is counted as observation queued_behind_limit_until_next_submission and
+// is the reason why (a) is evaluated at submissions only and (b) uses probe calls. Executions containing the
+// known unclaimed leak (a stream failing after the stream of the other kind of its connection failed) are
+// not judged from that point on.
+
+func outstandingAt(o *obs) int {
+	n := 0
+	for _, r := range o.Reqs {
+		if r.Alive && r.Answers == 0 {
+			n++
+		}
+	}
+	return n
+}
+
+func hasReq(o *obs, payload string) bool {
+	for i := range o.Reqs {
+		if o.Reqs[i].Payload == payload {
+			return true
+		}
+	}
+	return false
+}
+
+// modelAvailable is the specification of the limit: slots that are free when `out` requests are outstanding.
+func modelAvailable(limit int64, out int) int64 {
+	if limit <= 0 {
+		return math.MaxInt64
+	}
+	if int64(out) >= limit {
+		return 0
+	}
+	return limit - int64(out)
+}
+
+func (w *world) healthyStore() bool {
+	if w.closed || atomic.LoadInt32(&w.failNextSend) != 0 || w.knownLeak {
+		return false
+	}
+	for _, c := range w.callers {
+		if c.tainted {
+			return false
+		}
+	}
+	return true
+}
+
+func callerTag(c *caller) string {
+	if c.variant == vAsync {
+		return "async"
+	}
+	return "sync"
+}
+
+func (w *world) storeFacts(o *obs) string {
+	ans, live := 0, 0
+	for _, r := range o.Reqs {
+		if r.Alive {
+			live++
+			if r.Answers > 0 {
+				ans++
+			}
+		}
+	}
+	return fmt.Sprintf("client open, no fault pending, %d live stream(s), the server has answered %d of the %d requests it received on live streams", func() int {
+		n := 0
+		for _, s := range o.Streams {
+			if s.Alive {
+				n++
+			}
+		}
+		return n
+	}(), ans, live)
+}
+
+// checkHealthy evaluates rules (a) and (c) after one event.
+func (w *world) checkHealthy(before, after *obs, e string) []viol {
+	if !w.healthyStore() {
+		return nil
+	}
+	var vs []viol
+	kind := eventKind(e)
+	// (c) white box
+	entries, sent := client.VerifInflight(w.cli, storeAddr)
+	out := outstandingAt(after)
+	w.acctChecks++
+	if (entries != out || sent != int64(out)) && !w.acctReported && !noWhiteBox {
+		w.acctReported = true // (the difference stays for the rest of the execution: reported once)
+		shape := "in-flight-count-above-requests-outstanding"
+		if sent < int64(out) || entries < out {
+			shape = "in-flight-count-below-requests-outstanding"
+		}
+		what := fmt.Sprintf("after event %s the client counts %d entr(y/ies) in its in-flight table and sent=%d, but %d request(s) are written to a live stream and not yet answered (%s)",
+			e, entries, sent, out, w.storeFacts(after))
+		if w.cfg.Limit > 0 {
+			vs = append(vs, viol{Key: "slot-accounting:healthy-stream/" + shape + "/after-" + kind, What: what + fmt.Sprintf("; every unit of difference is a slot of max-concurrency-request-limit=%d", w.cfg.Limit)})
+		} else {
+			w.notes = append(w.notes, viol{Key: "in_flight_table_differs_from_requests_outstanding/" + shape, What: what + " (default limit: nothing a caller can observe depends on it)"})
+		}
+	}
+	// (a) only a submission wakes the send loop
+	if kind[0] != 'S' || !(w.cfg.Conns <= 1 || w.cfg.Limit <= 0) {
+		return vs
+	}
+	var queued []int
+	for i := range after.Callers {
+		if !after.Callers[i].Submitted || hasReq(before, w.callers[i].payload()) {
+			continue
+		}
+		if before.Callers[i].Submitted && before.Callers[i].Returns > 0 {
+			continue // gave up (or failed) while queued
+		}
+		queued = append(queued, i)
+	}
+	avail := modelAvailable(w.cfg.Limit, outstandingAt(before))
+	var normals, sentNormals int64
+	var unsentHigh, unsentNormal []int
+	for _, i := range queued {
+		done := hasReq(after, w.callers[i].payload()) || after.Callers[i].Returns > 0
+		if w.callers[i].variant == vHigh {
+			if !done {
+				unsentHigh = append(unsentHigh, i)
+			}
+			continue
+		}
+		normals++
+		if done {
+			sentNormals++
+		} else {
+			unsentNormal = append(unsentNormal, i)
+		}
+	}
+	w.sendChecks++
+	need := min(avail, normals)
+	if len(unsentHigh) > 0 || sentNormals < need {
+		who := append(append([]int{}, unsentHigh...), unsentNormal...)
+		lim := "default (unlimited)"
+		if w.cfg.Limit > 0 {
+			lim = strconv.FormatInt(w.cfg.Limit, 10)
+		}
+		vs = append(vs, viol{Key: "request-never-sent:healthy-stream/" + callerTag(w.callers[who[0]]), What: fmt.Sprintf(
+			"submission %s woke the send loop, but the request(s) of caller(s) %v were not handed to the stream: limit %s, %d request(s) outstanding at the server => %d free slot(s), %d call(s) of normal priority queued, only %d written (%d of high priority not written); %s",
+			e, who, lim, outstandingAt(before), min(avail, int64(1<<30)), normals, sentNormals, len(unsentHigh), w.storeFacts(after))})
+		w.starved = true
+	}
+	return vs
+}
+
+// noWhiteBox (VERIF_C18_NO_WHITEBOX=1, diagnostics): rule (c) is not evaluated, to see what the black-box rules find alone.
+var noWhiteBox = os.Getenv("VERIF_C18_NO_WHITEBOX") != ""
+
+// liveness classes: the observation model stays intact, the enumeration goes on next to such an execution.
+func livenessKey(k string) bool {
+	return strings.HasPrefix(k, "stuck/sync/") || strings.HasPrefix(k, "stuck/async/") ||
+		strings.HasPrefix(k, "request-never-sent:healthy-stream/") || strings.HasPrefix(k, "call-never-returns:healthy-stream/") ||
+		strings.HasPrefix(k, "slot-accounting:healthy-stream/")
+}
+
+func branchable(vs []viol) bool {
+	for _, v := range vs {
+		if !livenessKey(v.Key) {
+			return false
+		}
+	}
+	return true
+}
+
 // onlyStuck: a call that stays blocked (liveness) leaves the observation model intact, so the
 // enumeration continues below such an execution; after any other violation it does not.
 func onlyStuck(vs []viol) bool {
 	for _, v := range vs {
-		if !strings.HasPrefix(v.Key, "stuck/sync/") && !strings.HasPrefix(v.Key, "stuck/async/") {
+		// (a difference in the slot accounting is local: the execution goes on, so that the calls that follow show
+		// what a caller can see of it)
+		if !strings.HasPrefix(v.Key, "stuck/sync/") && !strings.HasPrefix(v.Key, "stuck/async/") && !strings.HasPrefix(v.Key, "slot-accounting:healthy-stream/") {
 			return false
 		}
 	}
@@ -662,6 +903,12 @@ type trace struct {
 	TeardownFailed  bool
 	w               *world
 	Steps           int
+	Drain           []string // events of the drain epilogue (not enumerated: derived from the final state)
+	Probes          int      // probe calls submitted by the drain epilogue
+	LateAnswers     int      // answers the server sent for requests whose caller had already returned (gave up)
+	FollowUps       int      // submissions made after at least one such late answer
+	AcctChecks      int
+	SendChecks      int
 }
 
 var stateDump map[string]struct{} // diagnostics (VERIF_C18_DUMPSTATES)
@@ -707,8 +954,8 @@ func outcomeOf(w *world, o *obs) string {
 }
 
 // runOne executes prefix on a fresh client + server and, unless stopAtPrefix, continues with the
-// first enabled event until nothing is enabled. It then runs the epilogue (Close; nobody may stay
-// blocked) and tears the world down.
+// first enabled event until nothing is enabled. It then runs the epilogues (drain of a healthy store:
+// nobody may stay without result; Close: nobody may stay blocked) and tears the world down.
 func runOne(cfg Config, prefix []string, stopAtPrefix bool) *trace {
 	t := &trace{}
 	applyConfig(cfg)
@@ -721,6 +968,7 @@ func runOne(cfg Config, prefix []string, stopAtPrefix bool) *trace {
 				runtime.GC() // (automatic collection is off, see workerMain)
 			}
 		}()
+		t.AcctChecks, t.SendChecks = w.acctChecks, w.sendChecks
 		t.w = nil
 		if !w.teardown() {
 			if t.Inconclusive == "" && len(t.Viol) == 0 {
@@ -742,6 +990,90 @@ func runOne(cfg Config, prefix []string, stopAtPrefix bool) *trace {
 			t.logMark += n
 			t.Viol = append(t.Viol, viol{Key: "panic/client-goroutine/after-" + eventKind(e), What: fmt.Sprintf("the client recovered a panic after event %s: %s", e, msg)})
 		}
+	}
+	// step performs one event, waits for quiescence and applies the oracle; false = the execution ends here.
+	// Events of the drain epilogue are not part of the enumerated sequence (a replay re-creates them).
+	step := func(e string, drain bool) bool {
+		noAvail := noAvailCount()
+		ex, err := w.perform(&o, e)
+		if err != nil {
+			t.Diverged = true
+			t.Inconclusive = fmt.Sprintf("event %s could not be performed: %v", e, err)
+			return false
+		}
+		at := -1 // (a violation found in the drain epilogue is re-checked by a complete re-execution)
+		if drain {
+			t.Drain = append(t.Drain, e)
+		} else {
+			t.Events = append(t.Events, e)
+			budget -= cfg.cost(e)
+			at = len(t.Events)
+		}
+		n0 := len(t.Viol)
+		defer func() {
+			for i := n0; i < len(t.Viol); i++ {
+				if t.Viol[i].At == 0 || drain {
+					t.Viol[i].At = at
+				}
+			}
+		}()
+		if !w.settle() {
+			if !diagnoseNotQuiet(t, e, noAvail) {
+				t.Inconclusive = "no quiescence after event " + eventKind(e) + ": busy: " + busyGoroutines()
+			}
+			return false
+		}
+		if w.tooSlow() {
+			t.Inconclusive = "execution exceeded its wall budget (timing assumption not guaranteed)"
+			return false
+		}
+		if n := atomic.LoadInt32(&w.closeCalls); n != atomic.LoadInt32(&w.closeDone) {
+			t.Viol = append(t.Viol, viol{Key: "stuck/close/after-" + eventKind(e), What: fmt.Sprintf("Close / CloseAddr did not return (event %s)", e)})
+		}
+		after := w.observe()
+		t.Steps++
+		t.Viol = append(t.Viol, w.check(&o, &after, e, ex)...)
+		healthyViol := w.checkHealthy(&o, &after, e)
+		t.Viol = append(t.Viol, healthyViol...)
+		for _, n := range w.notes {
+			n.At = at
+			t.Obs = append(t.Obs, n)
+		}
+		w.notes = nil
+		checkPanics(e)
+		// coverage of the abandoned-request class
+		if eventKind(e) == "A" || eventKind(e) == "AA" {
+			for i := range after.Reqs {
+				r := &after.Reqs[i]
+				if r.Answers > 0 && (i >= len(o.Reqs) || o.Reqs[i].Answers == 0) {
+					if j := ownerOf(r.Payload); j >= 0 && j < len(o.Callers) && o.Callers[j].Returns > 0 {
+						t.LateAnswers++
+					}
+				}
+			}
+		}
+		if e[0] == 'S' && t.LateAnswers > 0 && !drain {
+			t.FollowUps++
+		}
+		o = after
+		n := 0
+		for i := range o.Callers {
+			if o.inflight(i) {
+				n++
+			}
+		}
+		if n > t.MaxInflight {
+			t.MaxInflight = n
+		}
+		for _, r := range o.Reqs {
+			if r.BatchLen > t.MaxBatch {
+				t.MaxBatch = r.BatchLen
+			}
+		}
+		if !onlyStuck(t.Viol) {
+			return false // the rest of the execution is not meaningful after a safety violation / is starved
+		}
+		return true
 	}
 	for k := 0; ; k++ {
 		en := w.enabled(&o, budget)
@@ -767,62 +1099,69 @@ func runOne(cfg Config, prefix []string, stopAtPrefix bool) *trace {
 			}
 			e = en[0]
 		}
-		noAvail := noAvailCount()
-		ex, err := w.perform(&o, e)
-		if err != nil {
-			t.Diverged = true
-			t.Inconclusive = fmt.Sprintf("event %s could not be performed: %v", e, err)
+		if !step(e, false) {
 			return t
-		}
-		t.Events = append(t.Events, e)
-		budget -= eventCost(e)
-		if !w.settle() {
-			if !diagnoseNotQuiet(t, e, noAvail) {
-				t.Inconclusive = "no quiescence after event " + eventKind(e) + ": busy: " + busyGoroutines()
-			}
-			return t
-		}
-		if w.tooSlow() {
-			t.Inconclusive = "execution exceeded its wall budget (timing assumption not guaranteed)"
-			return t
-		}
-		if n := atomic.LoadInt32(&w.closeCalls); n != atomic.LoadInt32(&w.closeDone) {
-			t.Viol = append(t.Viol, viol{Key: "stuck/close/after-" + eventKind(e), What: fmt.Sprintf("Close / CloseAddr did not return (event %s)", e)})
-		}
-		after := w.observe()
-		t.Steps++
-		t.Viol = append(t.Viol, w.check(&o, &after, e, ex)...)
-		for _, n := range w.notes {
-			n.At = len(t.Events)
-			t.Obs = append(t.Obs, n)
-		}
-		w.notes = nil
-		checkPanics(e)
-		for i := range t.Viol {
-			if t.Viol[i].At == 0 {
-				t.Viol[i].At = len(t.Events)
-			}
-		}
-		o = after
-		n := 0
-		for i := range o.Callers {
-			if o.inflight(i) {
-				n++
-			}
-		}
-		if n > t.MaxInflight {
-			t.MaxInflight = n
-		}
-		for _, r := range o.Reqs {
-			if r.BatchLen > t.MaxBatch {
-				t.MaxBatch = r.BatchLen
-			}
-		}
-		if !onlyStuck(t.Viol) {
-			return t // the rest of the execution is not meaningful after a safety violation
 		}
 	}
 	t.Outcome = outcomeOf(w, &o)
+	onlyAccounting := true
+	for _, v := range t.Viol {
+		if !strings.HasPrefix(v.Key, "slot-accounting:healthy-stream/") {
+			onlyAccounting = false
+		}
+	}
+	if !stopAtPrefix && onlyAccounting && w.healthyStore() {
+		// Epilogue 1 (rule (b) of the healthy-store oracle): every call gets every chance.
+		maxRounds := len(w.callers) + 1 // every round with a free slot gets at least one queued call written
+		for round := 0; round <= maxRounds; round++ {
+			for progress := true; progress; {
+				progress = false
+				for _, r := range o.Reqs {
+					if r.Alive && r.Answers == 0 {
+						if !step("A:"+r.Payload, true) {
+							return t
+						}
+						progress = true
+						break
+					}
+				}
+			}
+			var waiting []int
+			for i := range o.Callers {
+				if o.inflight(i) && !w.callers[i].pendingAfterDrop {
+					waiting = append(waiting, i)
+				}
+			}
+			if len(waiting) == 0 || round == maxRounds {
+				for _, i := range waiting {
+					how := "its request was never handed to the stream"
+					if hasReq(&o, w.callers[i].payload()) {
+						how = "its request was written and answered"
+					}
+					t.Viol = append(t.Viol, viol{Key: "call-never-returns:healthy-stream/" + callerTag(w.callers[i]), At: -1, What: fmt.Sprintf(
+						"caller %d has no result at the end although nothing is withheld from it (%s; %s; %d probe call(s) of high priority were answered meanwhile; its time-out never fired: unbounded virtual time); drain: %v",
+						i, how, w.storeFacts(&o), t.Probes, t.Drain)})
+				}
+				break
+			}
+			// wake the send loop: a probe call of high priority by-passes the limit and takes nobody's slot for long
+			if round == 0 {
+				// (observation, not judged: see the note at the healthy-store oracle)
+				t.Obs = append(t.Obs, viol{Key: "queued_behind_limit_until_next_submission/" + callerTag(w.callers[waiting[0]]), At: len(t.Events), What: fmt.Sprintf(
+					"caller(s) %v still queued at the end although every request is answered and slots of max-concurrency-request-limit=%d are free: the answer that frees a slot does not wake the send loop, only a later submission does (the drain's probe call)", waiting, w.cfg.Limit)})
+			}
+			idx := len(w.callers)
+			w.callers = append(w.callers, &caller{idx: idx, timeout: callerTimeout(idx)})
+			o = w.observe()
+			t.Probes++
+			if !step(fmt.Sprintf("S%dh", idx), true) {
+				return t
+			}
+		}
+		if len(t.Viol) > 0 {
+			return t
+		}
+	}
 	t.InflightEntries, t.InflightSent = client.VerifInflight(w.cli, storeAddr)
 	if !stopAtPrefix && t.InflightEntries > 0 {
 		// observation only: a call that was left pending by a stream failure and then ended by its own
@@ -838,7 +1177,7 @@ func runOne(cfg Config, prefix []string, stopAtPrefix bool) *trace {
 	if stopAtPrefix {
 		return t
 	}
-	// epilogue: after Close no call stays blocked
+	// epilogue 2: after Close no call stays blocked
 	if !w.closed {
 		noAvail := noAvailCount()
 		ex, err := w.perform(&o, "X")
@@ -871,30 +1210,39 @@ func runOne(cfg Config, prefix []string, stopAtPrefix bool) *trace {
 // ---------- depth-first enumeration ----------
 
 type subtreeResult struct {
-	Prefix       []string            `json:"prefix"`
-	Executions   int                 `json:"executions"`
-	Steps        int                 `json:"steps"`
-	Events       int                 `json:"events"`
-	Inconclusive map[string]int      `json:"inconclusive,omitempty"`
-	Diverged     int                 `json:"diverged"`
-	Viol         map[string]violHit  `json:"viol,omitempty"`
-	Obs          map[string]violHit  `json:"obs,omitempty"`
-	States       []uint64            `json:"states"`
-	Outcomes     map[string]int      `json:"outcomes"`
-	NonTrivial   int                 `json:"nontrivial"`
-	ByF          map[string]int      `json:"by_f"`
-	MaxDepth     int                 `json:"max_depth"`
-	MaxBatch     int                 `json:"max_batch"`
-	EventKinds   map[string]int      `json:"event_kinds"`
-	Samples      [][]string          `json:"samples,omitempty"`
-	Frontier     [][]string          `json:"frontier,omitempty"`
-	Spins        int64               `json:"spins"`
-	Audits       int64               `json:"audits"`
-	Mismatch     int64               `json:"mismatch"`
-	Extra        map[string][]string `json:"extra,omitempty"`
-	WallMs       int64               `json:"wall_ms"`
-	SlowestMs    int64               `json:"slowest_ms"`
-	Slowest      []string            `json:"slowest,omitempty"`
+	Prefix         []string            `json:"prefix"`
+	Executions     int                 `json:"executions"`
+	Steps          int                 `json:"steps"`
+	Events         int                 `json:"events"`
+	Inconclusive   map[string]int      `json:"inconclusive,omitempty"`
+	Diverged       int                 `json:"diverged"`
+	Viol           map[string]violHit  `json:"viol,omitempty"`
+	Obs            map[string]violHit  `json:"obs,omitempty"`
+	States         []uint64            `json:"states"`
+	Outcomes       map[string]int      `json:"outcomes"`
+	NonTrivial     int                 `json:"nontrivial"`
+	ByF            map[string]int      `json:"by_f"`
+	MaxDepth       int                 `json:"max_depth"`
+	MaxBatch       int                 `json:"max_batch"`
+	EventKinds     map[string]int      `json:"event_kinds"`
+	Samples        [][]string          `json:"samples,omitempty"`
+	Frontier       [][]string          `json:"frontier,omitempty"`
+	Spins          int64               `json:"spins"`
+	Audits         int64               `json:"audits"`
+	Mismatch       int64               `json:"mismatch"`
+	Extra          map[string][]string `json:"extra,omitempty"`
+	DrainEvents    int                 `json:"drain_events"`
+	Probes         int                 `json:"probes"`
+	LateAnswers    int                 `json:"late_answers"`
+	ExecLate       int                 `json:"exec_late"`        // executions with >= 1 late answer to an abandoned request
+	ExecLateFollow int                 `json:"exec_late_follow"` // ... followed by at least one further submission
+	ExecLateFull   int                 `json:"exec_late_full"`   // ... with >= limit late answers (finite limit) and a further submission
+	AcctChecks     int                 `json:"acct_checks"`
+	SendChecks     int                 `json:"send_checks"`
+
+	WallMs    int64    `json:"wall_ms"`
+	SlowestMs int64    `json:"slowest_ms"`
+	Slowest   []string `json:"slowest,omitempty"`
 }
 
 type violHit struct {
@@ -911,7 +1259,21 @@ func newSubtreeResult(prefix []string) *subtreeResult {
 func (r *subtreeResult) account(cfg Config, t *trace, states map[uint64]struct{}) {
 	r.Executions++
 	r.Steps += t.Steps
-	r.Events += len(t.Events)
+	r.Events += len(t.Events) + len(t.Drain)
+	r.DrainEvents += len(t.Drain)
+	r.Probes += t.Probes
+	r.LateAnswers += t.LateAnswers
+	r.AcctChecks += t.AcctChecks
+	r.SendChecks += t.SendChecks
+	if t.LateAnswers > 0 {
+		r.ExecLate++
+		if t.FollowUps > 0 {
+			r.ExecLateFollow++
+		}
+		if cfg.Limit > 0 && int64(t.LateAnswers) >= cfg.Limit && t.FollowUps > 0 {
+			r.ExecLateFull++
+		}
+	}
 	for _, s := range t.States {
 		states[s] = struct{}{}
 	}
@@ -967,8 +1329,11 @@ func (r *subtreeResult) account(cfg Config, t *trace, states map[uint64]struct{}
 	r.Outcomes[t.Outcome]++
 	f := 0
 	for _, e := range t.Events {
-		f += eventCost(e)
+		f += cfg.cost(e)
 		r.EventKinds[eventKind(e)]++
+	}
+	for _, e := range t.Drain {
+		r.EventKinds["drain:"+eventKind(e)]++
 	}
 	r.ByF[strconv.Itoa(f)]++
 	if f > 0 || t.MaxInflight >= 2 {
@@ -1023,8 +1388,8 @@ func runChecked(cfg Config, prefix []string, stop bool) *trace {
 	defer func() { paranoid = saved }()
 	seen := map[string]bool{}
 	for _, v := range t.Viol {
-		if seen[v.Key] {
-			continue
+		if seen[v.Key] || confirmedKeys[v.Key] >= 8 {
+			continue // (a class that was reproduced 8 times in this process is not re-executed for every further hit)
 		}
 		seen[v.Key] = true
 		pre, stopAt := t.Events, false
@@ -1052,11 +1417,13 @@ func runChecked(cfg Config, prefix []string, stop bool) *trace {
 				return t
 			}
 		}
+		confirmedKeys[v.Key]++
 	}
 	return t
 }
 
 var unconfirmed int64
+var confirmedKeys = map[string]int{}
 var execCount int64
 
 // exploreSubtree enumerates every execution that starts with prefix (stateless DFS: run the
@@ -1082,9 +1449,11 @@ func exploreSubtree(cfg Config, prefix []string, expired func() bool) *subtreeRe
 			res.SlowestMs, res.Slowest = d, append([]string{}, t.Events...)
 		}
 		res.account(cfg, t, states)
-		if t.Inconclusive != "" || !onlyStuck(t.Viol) {
+		if t.Inconclusive != "" || !branchable(t.Viol) {
 			return // the subtree below an inconclusive / unsafe execution is not explored (reported)
 		}
+		// (an execution that ended early with a violation of a liveness class - a starved call - still has its
+		// siblings explored: t.Events is then the violating prefix)
 		for k := len(t.Events) - 1; k >= len(p); k-- {
 			for _, alt := range t.Enabled[k][1:] {
 				np := append(append([]string{}, t.Events[:k]...), alt)
@@ -1112,8 +1481,8 @@ func frontier(cfg Config, depth int) *subtreeResult {
 			return
 		}
 		t := runChecked(cfg, p, true)
-		if t.Inconclusive != "" {
-			res.account(cfg, t, states)
+		if t.Inconclusive != "" || !onlyStuck(t.Viol) {
+			res.account(cfg, t, states) // (a violation inside the prefix ends the execution there: nothing below it)
 			return
 		}
 		en := t.Enabled[len(t.Enabled)-1]
